@@ -14,6 +14,7 @@ typedef struct Arena {
   Index pos_, allocatedSize_;
   Index buffers_table;             /* id of the current pointer table (T** buffers_) */
   Index buffersSize_, buffersPos_;
+  Index deleteLater_;              /* std::vector<T**> deleteLater_ rendered as a handle */
 } Arena;
 
 /* ghost heap of pointer tables: table id -> entries (block ids) and how many are initialised */
@@ -98,7 +99,21 @@ __CPROVER_ensures(index + 1 == self->buffersPos_ ==> (self->buffersPos_ - 1) * s
 __CPROVER_assigns()
 #include "Arena_getBufferSize.body.inc"
 
+/* ---- swap: every data member is exchanged (move construction, move/copy assignment all go through it) ---- */
+static void SWAP_Index(Index* a, Index* b) { Index t = *a; *a = *b; *b = t; }
+#define A_LOADI(x, mo) (A_NOTE(mo), (x))
+#define A_STOREI(x, v, mo) (A_NOTE(mo), (x) = (v))
+#define SAME(a, b) ((a)->kLog2BuffSize == (b).kLog2BuffSize && (a)->kBufferSize == (b).kBufferSize && (a)->kMask == (b).kMask && (a)->pos_ == (b).pos_ && \
+  (a)->allocatedSize_ == (b).allocatedSize_ && (a)->buffers_table == (b).buffers_table && (a)->buffersSize_ == (b).buffersSize_ && (a)->buffersPos_ == (b).buffersPos_ && (a)->deleteLater_ == (b).deleteLater_)
+Arena g_old_lhs, g_old_rhs;
+void Arena_swap(Arena* lhs, Arena* rhs)
+__CPROVER_requires(SAME(lhs, g_old_lhs) && SAME(rhs, g_old_rhs))
+__CPROVER_ensures(SAME(lhs, g_old_rhs) && SAME(rhs, g_old_lhs))
+__CPROVER_assigns(*lhs, *rhs, g_last_mo)
+#include "Arena_swap.body.inc"
+
 #ifdef VERIF_CBMC
+void h_Arena_swap(void) { Arena a, b; g_old_lhs = a; g_old_rhs = b; Arena_swap(&a, &b); }
 void h_log2i(void) { Index v; log2i(v); }
 void h_Arena_ctor_sizes(void) { Arena a; Index m; Arena_ctor_sizes(&a, m); }
 void h_Arena_index_split(void) { Arena a; Index i; Arena_index_split(&a, i); }
